@@ -46,11 +46,20 @@ const TOKENS: [&str; 26] = ["a", "b", "|", "\"", "\\", "'", ",", "(", ")", "[", 
 
 impl Adv for String {
     fn gen(r: &mut Rng) -> Self {
-        let n = r.usize(5);
+        // one in ten is long (keys of several hundred bytes: long statements, documents)
+        let n = if r.chance(1, 10) { 60 + r.usize(200) } else { r.usize(5) };
         (0..n).map(|_| *r.pick(&TOKENS)).collect()
     }
     fn mutate(&self, r: &mut Rng) -> Self {
         let mut s = self.clone();
+        if s.len() > 64 && r.chance(2, 3) {
+            // long values that differ only in their last few characters (same length), or in one
+            // character somewhere
+            let chars: Vec<char> = s.chars().collect();
+            let k = if r.chance(3, 4) { chars.len() - 1 - r.usize(7.min(chars.len())) } else { r.usize(chars.len()) };
+            let repl = if chars[k] == 'x' { 'y' } else { 'x' };
+            return chars.iter().enumerate().map(|(i, c)| if i == k { repl } else { *c }).collect();
+        }
         match r.usize(4) {
             0 => s.push_str(*r.pick(&TOKENS[..])),
             1 => {
@@ -656,6 +665,60 @@ fn s_m_int2() -> Shape<(Recv, u32, u32)> {
     Shape { name: "s_m_int2", sync_name: "km_int2", async_name: "kma_int2", sync_call: |t| t.0.km_int2(t.1, t.2), async_call: |t| vhooks::block_on(t.0.kma_int2(t.1, t.2)) }
 }
 
+// an argument type whose own cache key is computed with the help of another cached function
+// (a custom CacheableKey that looks something up): building one call's key re-enters the macro's
+// key-building code for another function, which must not disturb the parts already built
+#[cache]
+pub fn k_key_helper(tenant: u32, salt: u32) -> String {
+    format!("t{}-{}", tenant, salt)
+}
+#[derive(Debug, Clone, PartialEq)]
+pub struct Looked(pub u32);
+impl cachelito_core::CacheableKey for Looked {
+    fn to_cache_key(&self) -> String {
+        format!("L[{}]", k_key_helper(self.0, 7))
+    }
+}
+impl vhooks::Dg for Looked {
+    fn dg(&self, h: &mut vhooks::Hs) {
+        h.byte(108);
+        self.0.dg(h);
+    }
+}
+impl Adv for Looked {
+    fn gen(r: &mut Rng) -> Self {
+        Looked(u32::gen(r) % 5)
+    }
+    fn mutate(&self, r: &mut Rng) -> Self {
+        Looked(self.0.mutate(r) % 7)
+    }
+}
+#[cache]
+pub fn k_reent_key(a: u32, b: String, c: Looked, d: u32) -> u64 {
+    next_serial()
+}
+#[cache_async]
+pub async fn ka_reent_key(a: u32, b: String, c: u32, d: u32) -> u64 {
+    next_serial()
+}
+fn s_reent_key() -> Shape<(u32, String, Looked, u32)> {
+    // (the async macro keys arguments by Debug: its twin takes the plain number)
+    Shape { name: "s_reent_key", sync_name: "k_reent_key", async_name: "ka_reent_key", sync_call: |t: &(u32, String, Looked, u32)| k_reent_key(t.0, t.1.clone(), t.2.clone(), t.3), async_call: |t: &(u32, String, Looked, u32)| vhooks::block_on(ka_reent_key(t.0, t.1.clone(), (t.2).0, t.3)) }
+}
+impl Recv {
+    #[cache]
+    pub fn km_reent_key(&self, c: Looked) -> u64 {
+        next_serial()
+    }
+    #[cache_async]
+    pub async fn kma_reent_key(&self, c: u32) -> u64 {
+        next_serial()
+    }
+}
+fn s_m_reent_key() -> Shape<(Recv, Looked)> {
+    Shape { name: "s_m_reent_key", sync_name: "km_reent_key", async_name: "kma_reent_key", sync_call: |t| t.0.km_reent_key(t.1.clone()), async_call: |t| vhooks::block_on(t.0.kma_reent_key((t.1).0)) }
+}
+
 fn listing_len(name: &str) -> Option<usize> {
     let n = std::cell::Cell::new(0usize);
     let ok = cachelito_core::invalidate_with(name, |_| {
@@ -775,7 +838,7 @@ fn main() {
     let pairs: u64 = std::env::var("VERIF_KEY_PAIRS").ok().and_then(|s| s.parse().ok()).unwrap_or(if tier == "thorough" { 400_000 } else { 6_000 });
     let mut rng = Rng::new(seed.wrapping_mul(0x9E37_79B9) ^ ((shard.0 as u64) << 32));
     macro_rules! go { ($($s:ident),*) => { $( { let sh = $s(); let mut r = rng.fork(hash_str(sh.name)); run_shape(&sh, &mut rep, &mut r, pairs); rep.count("C02", "shapes_x_flavours", 2); } )* } }
-    go!(s_string, s_str, s_i64, s_f64, s_char, s_optstr, s_vecstr, s_tup, s_optopt, s_slice, s_users, s_usere, s_str2, s_ref2, s_int2, s_u64x2, s_strint, s_intstr, s_char2, s_f64x2, s_optstr_str, s_vec2, s_boolstr, s_str3, s_u8x3, s_five, s_m_ref, s_m_noarg, s_m_int2, s_u128, s_i8x3, s_f32x2, s_nested, s_optvec, s_vecopt, s_sos, s_vecint2, s_usize_str, s_m_val, s_m_mut, s_names1, s_names2, s_names3, s_names4, s_names5, s_names6, s_names7, s_names8, s_i128, s_vecwide, s_pat_tup, s_pat_mix, s_pat_struct, s_m_pat);
+    go!(s_string, s_str, s_i64, s_f64, s_char, s_optstr, s_vecstr, s_tup, s_optopt, s_slice, s_users, s_usere, s_str2, s_ref2, s_int2, s_u64x2, s_strint, s_intstr, s_char2, s_f64x2, s_optstr_str, s_vec2, s_boolstr, s_str3, s_u8x3, s_five, s_m_ref, s_m_noarg, s_m_int2, s_u128, s_i8x3, s_f32x2, s_nested, s_optvec, s_vecopt, s_sos, s_vecint2, s_usize_str, s_m_val, s_m_mut, s_names1, s_names2, s_names3, s_names4, s_names5, s_names6, s_names7, s_names8, s_i128, s_vecwide, s_pat_tup, s_pat_mix, s_pat_struct, s_m_pat, s_reent_key, s_m_reent_key);
     rep.notes.push(format!("keymon shard {}/{} seed {} tier {} pairs/shape {} wall {:.2}s", shard.0, shard.1, seed, tier, pairs, t0.elapsed().as_secs_f64()));
     rep.write(&out);
 }
